@@ -55,7 +55,7 @@ def one(job):
     kind, name, prop, payload = job
     d = scratch_copy()
     try:
-        if kind in ("mutant", "benign"):
+        if kind in ("mutant", "benign", "undecid"):
             err = apply_edits(d, payload)
             if err:
                 return (kind, name, prop, "BROKEN-VARIANT", err)
@@ -75,10 +75,12 @@ def main():
     ap.add_argument("--only", default="")
     ap.add_argument("--json", default="")
     a = ap.parse_args()
-    from mutants import BENIGN, MUTANTS
+    from mutants import BENIGN, MUTANTS, UNDECIDED
     jobs = []
     for name, prop, edits in MUTANTS:
         jobs.append(("mutant", name, prop, edits))
+    for name, prop, edits in UNDECIDED:
+        jobs.append(("undecid", name, prop, edits))
     for name, props, edits in BENIGN:
         for prop in props:
             jobs.append(("benign", name, prop, edits))
@@ -101,6 +103,8 @@ def main():
                 ok = rc == 1
             elif kind == "benign":
                 ok = rc == 0
+            elif kind == "undecid":
+                ok = rc in (1, 2)
             else:
                 ok = True
             verdict = {1: "CAUGHT", 0: "silent", 2: "inconclusive"}.get(rc, rc)
